@@ -59,7 +59,7 @@ def illformed_case(draw, depth):
     if any(tag == "close" for _x, tag in toks):
         modes += ["drop_close"] * 2
     if any(tag == "fn" for _x, tag in toks):
-        modes += ["arg_add"] * 3
+        modes += ["arg_add"] * 3 + ["arg_add_empty"] * 2
     if any(tag == "comma" for _x, tag in toks):
         modes += ["arg_drop"] * 3
     if any(tag == "bin" for _x, tag in toks):
@@ -175,7 +175,7 @@ def _mutate(case):
         idx = [i for i, (_x, g) in enumerate(toks) if g == tag]
         i = idx[pick % len(idx)]
         return toks[:i] + toks[i + 1:], f"{mode} token {i}"
-    if mode == "arg_add":
+    if mode in ("arg_add", "arg_add_empty"):
         # add one argument (with its comma) right before the closing parenthesis of a function call
         idx = [i for i, (_x, g) in enumerate(toks) if g == "fn"]
         i = idx[pick % len(idx)]
@@ -186,6 +186,8 @@ def _mutate(case):
                 depth += 1
             elif g == "close":
                 if depth == 0:
+                    if mode == "arg_add_empty":
+                        return toks[:j] + [(",", "comma")] + toks[j:], f"extra empty argument in {toks[i][0]}"
                     return toks[:j] + [(",", "comma"), (case["extra"], "num")] + toks[j:], f"extra argument in {toks[i][0]}"
                 depth -= 1
         return None, "no closing"
